@@ -590,7 +590,7 @@ func synthStratum(c *Ctx, r *Report) error {
 	}
 
 	// 1. sizes 1, 2, 3: every reordering x every rotation, then changed copies
-	nTiny := TierN(c.Tier, 16, 400, 120)
+	nTiny := TierN(c.Tier, 16, 240, 80)
 	for k := 0; k < nTiny; k++ {
 		sz := []int{1, 2, 3, 3, 2, 3, 1, 2}[k%8]
 		if c.Tier == "quick" && sz == 3 && k%16 >= 8 {
@@ -621,7 +621,7 @@ func synthStratum(c *Ctx, r *Report) error {
 		}
 	}
 	// 2. sizes 4..40: random and structured reorderings, changed copies
-	nMid := TierN(c.Tier, 90, 2500, 700)
+	nMid := TierN(c.Tier, 75, 1500, 400)
 	for k := 0; k < nMid; k++ {
 		var sz int
 		switch k % 5 {
@@ -681,8 +681,8 @@ func synthStratum(c *Ctx, r *Report) error {
 		}
 		viol(2, key, what, map[string]interface{}{"triples": set}, set)
 	}
-	nProbe := TierN(c.Tier, 24, 400, 120)
-	perList := TierN(c.Tier, 110, 400, 200)
+	nProbe := TierN(c.Tier, 24, 200, 100)
+	perList := TierN(c.Tier, 110, 300, 150)
 	for k := 0; k < nProbe; k++ {
 		kind, a := synthSet(rng, k, rng.Range(8, 20))
 		var l []tri
